@@ -192,12 +192,14 @@ pub fn run_index(prop: &str, seed: u64, thorough: bool, ctx: &Ctx, sink: &mut dy
             if !clean || n == 0 {
                 return;
             }
-            let ks: Vec<u64> = if thorough || n <= 16 {
+            // every index up to 64 callbacks (thorough) / 16 (quick); a sample of 64 / 16 above
+            let full = if thorough { 64 } else { 16 };
+            let ks: Vec<u64> = if n <= full {
                 (1..=n).collect()
             } else {
                 let mut v: Vec<u64> = vec![1, 2, n - 1, n];
                 let mut rr = Rng::new(seed).sub(78);
-                while v.len() < 16 {
+                while (v.len() as u64) < full {
                     let k = 1 + rr.below(n);
                     if !v.contains(&k) {
                         v.push(k);
